@@ -397,3 +397,14 @@ def sv_items(obs):
 def norm(ts):
     """Normalises a token string for comparison (collapses whitespace)."""
     return re.sub(r"\s+", "", ts)
+
+
+def has_wide_int(text):
+    """True when a JSON text carries a bare integer outside the 64-bit ranges (native u128 / i128 values)."""
+    if isinstance(text, bytes):
+        text = text.decode("utf-8", "replace")
+    for m in re.finditer(r'(?<![\w".])-?\d{19,}(?![\w".])', text):
+        v = int(m.group(0))
+        if v > 2 ** 64 - 1 or v < -2 ** 63:
+            return True
+    return False
